@@ -48,3 +48,13 @@ Theorem C18_quiet_round_converges : forall colname col D key ty st,
   forall c, In c (ps_cl st') -> pc_exec c = foreign (pc_cuid c) (logops D (ps_db st')).
 Proof. exact quiet_round_converges. Qed.
 Print Assumptions C18_quiet_round_converges.
+
+(* ... and what each client has then executed from the others, together with its own operations of the log, is the log
+   (as a multiset): by the convergence theorems of C01 (counter, map, list) all of them hold the same state *)
+From Coq Require Import Permutation.
+Theorem C18_quiet_round_everyone_has_the_log : forall colname col D key ty st,
+  PInv col D st -> quiet D st ->
+  let st' := prun colname col D key ty st (map (fun i => PSync i false) (seq 0 (length (ps_cl st)))) in
+  forall c, In c (ps_cl st') -> Permutation (owns (pc_cuid c) (logops D (ps_db st')) ++ pc_exec c) (logops D (ps_db st')).
+Proof. exact quiet_round_everyone_has_the_log. Qed.
+Print Assumptions C18_quiet_round_everyone_has_the_log.
